@@ -1256,7 +1256,15 @@ class WebSocketProtocol13(WebSocketProtocol):
             if len(data) >= 2:
                 self.close_code = struct.unpack(">H", data[:2])[0]
             if len(data) > 2:
-                self.close_reason = to_unicode(data[2:])
+                try:
+                    self.close_reason = to_unicode(data[2:])
+                except UnicodeDecodeError:
+                    # Invalid utf-8 in the close reason: fail the connection
+                    # (RFC 6455 section 8.1) instead of letting the exception
+                    # escape the receive loop, which would skip the close
+                    # notification.
+                    self._abort()
+                    return None
             # Echo the received close code, if any (RFC 6455 section 5.5.1).
             self.close(self.close_code)
         elif opcode == 0x9:
